@@ -555,7 +555,7 @@ pub fn run(run: &'static Run) {
         alphabet,
         NEW_PATHS,
         if thorough { format!(" and every sequence of length 3 over the {} core operations {:?}", core.len(), core) } else { String::new() },
-        if thorough { ", -1 (racily clean, index older than the file; for singles and for every sequence with a same-size same-mtime edit)" } else { "; -1 only for sequences with a same-size same-mtime edit, +10 for pairs only if they contain an edit/touch of a tracked file" },
+        if thorough { ", -1 (racily clean, index older than the file; for singles and for every sequence with a same-size same-mtime edit); +10 for pairs/triples only if they contain an edit/touch of a tracked file" } else { "; -1 only for sequences with a same-size same-mtime edit, +10 for pairs only if they contain an edit/touch of a tracked file" },
     ));
     run.assume("oracle: git 2.39.5 `status --porcelain=v2 -z --no-renames --untracked-files=normal --ignored=traditional` / `--untracked-files=all --ignored=matching` with GIT_OPTIONAL_LOCKS=0 (the oracle never rewrites the index); the expectation for untracked mode `no` is the tracked part of git's answer (checked to be identical in both modes)");
     run.assume("core.trustctime=false in the fixture so that outcomes do not depend on the wall clock (ctime cannot be set); all mtimes are whole seconds; git 2.39.5 is built without USE_NSEC");
@@ -573,13 +573,13 @@ pub fn run(run: &'static Run) {
             vkit::enumerate::seqs(&pairs_of, 2, 2, |ops| seqs.push(ops.to_vec()));
             for ops in &seqs {
                 let stealth = ops.iter().any(|o| matches!(o, Op::SameSizeKeepMtime(_)));
-                // quick: pairs that do not touch stat-sensitive state are only run against the racy index (every unchanged file gets a content check)
+                // pairs (and triples) that do not touch stat-sensitive state are only run against the racy index (every unchanged file gets a content check)
                 let stat_sensitive = ops.iter().any(|o| matches!(o, Op::SameSizeKeepMtime(_) | Op::SameSizeBumpMtime(_) | Op::GrowKeepMtime(_) | Op::Touch(_)));
                 for index_age in [10i8, 0, -1] {
                     if index_age == -1 && !((thorough && ops.len() <= 1) || stealth) {
                         continue;
                     }
-                    if index_age == 10 && !thorough && ops.len() == 2 && !stat_sensitive {
+                    if index_age == 10 && ops.len() == 2 && !stat_sensitive {
                         continue;
                     }
                     emit(Case { index_age, minimal_stat: true, ops: ops.clone() });
@@ -591,7 +591,11 @@ pub fn run(run: &'static Run) {
             }
             if thorough {
                 vkit::enumerate::seqs(&core, 3, 3, |ops| {
+                    let stat_sensitive = ops.iter().any(|o| matches!(o, Op::SameSizeKeepMtime(_) | Op::Touch(_)));
                     for index_age in [10i8, 0] {
+                        if index_age == 10 && !stat_sensitive {
+                            continue;
+                        }
                         emit(Case { index_age, minimal_stat: true, ops: ops.to_vec() });
                     }
                 });
